@@ -633,7 +633,7 @@ func TestC04ReplayAfterRestart(t *testing.T) {
 // other router's true address at each end and carries traffic both ways.
 func TestC04Overlap(t *testing.T) {
 	pool := ids.Routable()
-	core.Run(t, core.Opts{ID: "C04", Quick: 60, Thorough: 4000}, func(c *core.Case) {
+	core.Run(t, core.Opts{ID: "C04", Quick: 800, Thorough: 30000}, func(c *core.Case) {
 		ia := c.Pick("idA", len(pool))
 		ib := c.Pick("idB", len(pool)-1)
 		if ib >= ia {
@@ -669,7 +669,13 @@ func TestC04Overlap(t *testing.T) {
 			w.conns = append(w.conns, cc)
 			time.Sleep(2 * time.Millisecond)
 		}
-		w.log("overlapping setups:%s (lockstep=%v)", dirs, lockstep)
+		if c.Chance("head-start", 1, 2) {
+			// The first setup is well under way (1..5 of its 6 messages forwarded)
+			// when the others begin.
+			w.headStart = c.Int("head-start.messages", 1, 5)
+			c.Class(fmt.Sprintf("overlap/head-start-%d", w.headStart))
+		}
+		w.log("overlapping setups:%s (lockstep=%v, head start %d)", dirs, lockstep, w.headStart)
 		w.drive(cs, lockstep, -1)
 		if w.inconcl {
 			c.Class("inconclusive-time-budget")
